@@ -323,6 +323,30 @@ func famZ6(counts []int) []xferCase {
 	return out
 }
 
+// famZ8: the reader keeps reading, the packet with the second message is lost three times, and
+// the messages that overtake it reach a stream sequence number 2^15-1, 2^15 and 2^15+1 ahead
+// of the one the reader waits for (16-bit serial numbers have no order at exactly 2^15).
+func famZ8(counts []int) []xferCase {
+	var out []xferCase
+	for _, n := range counts {
+		a := withBase(epCfg{NoInterleave: true}, 1191, 0xFFFFF000, 4000)
+		b := withBase(epCfg{Server: true, NoInterleave: true}, 1191, 9, 4000)
+		a.MinCwnd = 1 << 20
+		b.RecvBuf = 5 << 20
+		var msgs []msgSpec
+		for i := 0; i < n; i++ {
+			msgs = append(msgs, msgSpec{Size: 7 + i%2, PPI: 53})
+		}
+		out = append(out, xferCase{
+			Name: fmt.Sprintf("Z8/ahead%d", n-2),
+			K:    0,
+			Spec: &xferSpec{A: a, B: b, Horizon: 400 * time.Second, DrainWait: 200 * time.Second, Kill: []killRule{{SID: 1, Msg: 1, Frag: -1, N: 3}},
+				Streams: []streamSpec{{SID: 1, From: 0, Msgs: msgs}}},
+		})
+	}
+	return out
+}
+
 // famZ7: blocking-write mode against a window that closes: single-chunk messages, so that the
 // zero-window probe carries the last (only) chunk of a write; the reader resumes later.
 func famZ7(modes []modeSpec, k int) []xferCase {
